@@ -527,19 +527,14 @@ Section Body.
     let* b := is_select_group ts in
     if b then r F_sub_query ts else
     if peek_mark M_PAREN ts then
-      let* (inner, _) := pop_children ts in r F_table_expression inner      (* the result cursor is the INNER one: see b_from_table *)
+      (* extra brackets: parsed in a new scanner over the group, which is closed; the caller goes on behind the group *)
+      let* (inner, rest) := pop_children ts in
+      let* (v, i1) := r F_table_expression inner in
+      let* _ := close i1 in Ok (v, rest)
     else parse_table_name ts.
 
-  (* _parse_table_expression recurses into a *new* scanner for extra brackets and returns; the caller keeps using the
-     outer scanner, from which the bracket group has been popped *)
   Definition b_from_table (ts : toks) : PR :=
-    let* b := is_select_group ts in
-    let* (name, t1) :=
-      if b then r F_sub_query ts else
-      if peek_mark M_PAREN ts then
-        let* (inner, rest) := pop_children ts in
-        let* (v, _) := r F_table_expression inner in Ok (v, rest)
-      else parse_table_name ts in
+    let* (name, t1) := r F_table_expression ts in
     let* (a, t2) := parse_alias t1 in
     Ok (node "ASTFromTable" [("name", name); ("alias", a)], t2).
 
@@ -565,7 +560,7 @@ Section Body.
     let* (f, t3) := r F_function t2 in
     let* (vn, t4) := pop_src t3 in
     let* (a, t5) := parse_multi_alias t4 in
-    Ok (node "ASTLateralViewClause" [("outer", vbool outer); ("function", f); ("view_name", VStr vn); ("alias", a)], t5).
+    Ok (node "ASTLateralViewClause" [("outer", vbool outer); ("function", f); ("view_name", VStr (unify_name vn)); ("alias", a)], t5).
 
   Definition b_join_expression (ts : toks) : PR :=
     if peek_up (S "ON") ts then
